@@ -16,6 +16,8 @@ let engines : (string * (string list -> string)) list = [
   "looprange", E_looprange.run;
   "strconv", E_strconv.run;
   "strsearch", E_strsearch.run;
+  (* informational engine (Display implementations): used by bin/displaycheck only, by no property *)
+  "display", E_display.run;
 ]
 (* engines with an oracle of their own: (cases tokens, impl result) -> None | Some msg *)
 let oracles : (string * (string list -> string -> string -> string option)) list = [
